@@ -929,14 +929,18 @@ where
     F: Fn(&essential_types::predicate::Node) -> bool,
 {
     let mut deferred = HashSet::new();
-    for (ix, node) in predicate.nodes.iter().enumerate() {
-        if is_deferred(node) {
-            deferred.insert(ix as u16);
-        }
-        if deferred.contains(&(ix as u16)) {
-            for child in predicate.node_edges(ix).expect("Already checked") {
-                deferred.insert(*child);
-            }
+    // Start from the nodes that are deferred themselves and then
+    // defer all of their descendants, however the nodes are numbered.
+    let mut to_visit: Vec<u16> = predicate
+        .nodes
+        .iter()
+        .enumerate()
+        .filter(|(_, node)| is_deferred(node))
+        .map(|(ix, _)| ix as u16)
+        .collect();
+    while let Some(ix) = to_visit.pop() {
+        if deferred.insert(ix) {
+            to_visit.extend(predicate.node_edges(ix as usize).expect("Already checked"));
         }
     }
     deferred
